@@ -152,6 +152,109 @@ fn blocking_cfg(r: &mut Xo) -> MCfg {
     c
 }
 
+/// The same observer on `std::time::Instant` with nanosecond-granular timestamps. The framework
+/// computes the share from two `as_secs_f64` conversions there, so the comparison is made with a
+/// relative tolerance of 1e-9 (seven orders of magnitude above that rounding): only a share that
+/// clearly is not below the fraction is a violation.
+#[allow(clippy::too_many_arguments)]
+fn run_std_instant(machines: &[Machine], pf: f64, bf: f64, rng_seed: u64, calls: usize, r: &mut Xo, out: &mut Out, trace: &mut Vec<String>) -> Result<u64, (String, String)> {
+    use maybenot::{Framework, TriggerAction};
+    use std::time::{Duration, Instant};
+    let base = Instant::now();
+    let start_ns: u64 = *r.pick(&[0u64, 1, 999, 1_000_000_007]);
+    let at = |ns: u64| base + Duration::from_nanos(ns);
+    let mut fw = Framework::new(machines, pf, bf, at(start_ns), ScriptRng::fair(rng_seed)).map_err(|e| ("C03/construction".to_string(), format!("{e}")))?;
+    let n = machines.len();
+    let mut eg = crate::drive::EvGen::default();
+    let (mut now, mut active, mut started, mut blocked) = (start_ns, false, start_ns, 0u64);
+    let mut decided = 0u64;
+    for ci in 0..calls {
+        let ev = if r.chance(7, 16) {
+            match r.below(8) {
+                0..=2 => TriggerEvent::BlockingBegin { machine: MachineId::from_raw(r.below(n as u64 + 1) as usize) },
+                3..=5 => TriggerEvent::BlockingEnd,
+                _ => TriggerEvent::TunnelRecv,
+            }
+        } else {
+            eg.next_event(r, n, true)
+        };
+        let step: i64 = match r.below(12) {
+            0 | 1 => 0,
+            2 => 1,
+            3 => 7,
+            4 => 999,
+            5 => 1000,
+            6 => 1500,
+            7 => r.range(1, 5000) as i64,
+            8 => r.range(1, 50_000_000) as i64,
+            9 => -(r.range(1, 3000) as i64),
+            10 => 1_000_003,
+            _ => r.range(1, 2_000_000) as i64,
+        };
+        now = if step >= 0 { now + step as u64 } else { now.saturating_sub((-step) as u64) };
+        if trace.len() < 300 {
+            trace.push(format!("t={}ns [{}]", now, crate::gen::fmt_events(std::slice::from_ref(&ev))));
+        }
+        match ev {
+            TriggerEvent::BlockingBegin { .. } => {
+                if !active {
+                    active = true;
+                    started = now;
+                }
+            }
+            TriggerEvent::BlockingEnd => {
+                if active {
+                    blocked += now.saturating_sub(started);
+                    active = false;
+                }
+            }
+            _ => {}
+        }
+        fw.verif_set_budget(64 * 2 * (n + 1));
+        let acts: Vec<(u8, bool, usize)> = fw
+            .trigger_events(std::slice::from_ref(&ev), at(now))
+            .map(|a| match a {
+                TriggerAction::Cancel { machine, .. } => (0, false, machine.into_raw()),
+                TriggerAction::SendPadding { machine, replace, .. } => (1, *replace, machine.into_raw()),
+                TriggerAction::BlockOutgoing { machine, replace, .. } => (2, *replace, machine.into_raw()),
+                TriggerAction::UpdateTimer { machine, replace, .. } => (3, *replace, machine.into_raw()),
+            })
+            .collect();
+        let flat: Vec<crate::drive::Act> = acts.iter().map(|(k, rp, m)| crate::drive::Act { machine: *m, kind: *k, bypass: false, replace: *rp, timer: 0, timeout: 0, duration: 0 }).collect();
+        eg.observe(&flat);
+        let total = blocked + if active { now.saturating_sub(started) } else { 0 };
+        let elapsed = now.saturating_sub(start_ns);
+        for (k, replace, m) in &acts {
+            if *k != 2 {
+                continue;
+            }
+            let mach = &machines[*m];
+            if *replace && active {
+                continue;
+            }
+            if (total as u128) < mach.allowed_blocked_microsec as u128 * 1000 {
+                continue;
+            }
+            decided += 1;
+            out.bump("std_instant_blocking_actions_with_budget_exhausted");
+            let clearly_not_below = |f: f64| f > 0.0 && if elapsed == 0 { total > 0 } else { total as f64 / elapsed as f64 >= f * (1.0 + 1.0e-9) };
+            if clearly_not_below(mach.max_blocking_frac) || clearly_not_below(bf) {
+                return Err((
+                    "C03/blocking-over-budget".into(),
+                    format!(
+                        "std::time::Instant, call #{ci} at t={now} ns: BlockOutgoing (replace={replace}) for machine {m} with {total} ns blocked of {elapsed} ns elapsed (share {}), machine fraction {}, framework fraction {bf}, budget {} us",
+                        total as f64 / elapsed as f64,
+                        mach.max_blocking_frac,
+                        mach.allowed_blocked_microsec
+                    ),
+                ));
+            }
+        }
+    }
+    out.add("std_instant_calls", calls as u64);
+    Ok(decided)
+}
+
 impl Prop for C03 {
     fn cases(&self, tier: Tier) -> u64 {
         match tier {
@@ -195,6 +298,20 @@ impl Prop for C03 {
             decided: 0,
         };
         out.evaluations += 1;
+        if cx.case % 4 == 3 {
+            // a quarter of the cases: std::time::Instant with nanosecond timestamps
+            let mut trace = vec![];
+            let calls = r.range(10, 250) as usize;
+            match run_std_instant(&machines, pf, bf, rng_seed, calls, &mut r, out, &mut trace) {
+                Ok(decided) => {
+                    if decided > 0 {
+                        out.nontrivial(hash_of(&(machines.iter().map(|m| m.serialize()).collect::<Vec<_>>(), &trace)));
+                    }
+                }
+                Err((sig, msg)) => out.violation(sig, msg, witness(&machines, pf, bf, rng_seed, VClock(0), &trace)),
+            }
+            return;
+        }
         let sc = Scenario {
             machines: &machines,
             pf,
